@@ -27,8 +27,9 @@ func parseCase(r *rng, text string, nd bool, copyStr bool, note string) *testCas
 	}
 	tc := &testCase{note: note}
 	tc.ops = append(tc.ops, fmt.Sprintf("parse p %s %s %s", ndS, cpS, hx([]byte(text))))
-	tc.ops = append(tc.ops, "tape p")
+	tc.ops = append(tc.ops, "tape p", "owalk p")
 	tc.ops = append(tc.ops, dumpOps("p")...)
+	tc.ops = append(tc.ops, fmt.Sprintf("spec %s %s", ndS, hx([]byte(text))), fmt.Sprintf("speciface %s %s", ndS, hx([]byte(text))))
 	return tc
 }
 
